@@ -227,10 +227,9 @@ def _rv_operands(rv):
 
 
 def _ttl_local(dm):
-    for l, (tix, name, _u) in enumerate(dm.locals):
-        if name == "ipv4_header":
-            return l
-    return None
+    # the router's working copy of the header: the one user-named local of type Ipv4Header (whatever it is called)
+    c = [l for l, (tix, name, _u) in enumerate(dm.locals) if name and l > dm.argc and dm.local_tystr(l).endswith("ipv4_parsing::Ipv4Header") and not dm.local_tystr(l).startswith("&")]
+    return c[0] if len(c) == 1 else None
 
 
 def _refs_local(body, op, l):
